@@ -1,1 +1,78 @@
-def main : IO Unit := pure ()
+import NfcVerif.Model.ErrMap
+open NfcVerif NfcVerif.ErrMap
+
+def parseDrv : String → Option Drv
+  | "pn531" => some .pn531 | "pn532" => some .pn532 | "pn533" => some .pn533
+  | "rcs956" => some .rcs956 | "acr122" => some .acr122 | "arygonA" => some .arygonA
+  | "arygonB" => some .arygonB | "rcs380" => some .rcs380 | "udp" => some .udp
+  | _ => none
+
+/-- kind token → (path, settings, tt3) -/
+def parseKind : String → Option (IPath × Bool × Bool)
+  | "t1" => some (.t1, true, false) | "t2" => some (.t2, true, false)
+  | "t3" => some (.thru, false, false) | "t4a" => some (.thru, true, false)
+  | "t4b" => some (.thru, true, false) | "depA" => some (.thru, true, false)
+  | "depF" => some (.thru, false, false) | "depX" => some (.thru, false, false)
+  | "tt2" => some (.thru, false, false) | "tt3" => some (.thru, false, true)
+  | "tt4" => some (.thru, false, false) | "dep" => some (.thru, false, false)
+  | _ => none
+
+def parseCfg (drv dir kind hasData : String) : Option Cfg :=
+  match parseDrv drv, parseKind kind with
+  | some d, some (p, s, t) =>
+    let dr := if dir = "i" then Dir.initiator else Dir.target
+    some { drv := d, dir := dr, path := p, settings := s, tt3 := t, hasData := hasData = "1" }
+  | _, _ => none
+
+def nominal (d : Drv) (nom : Bytes) : Host :=
+  match d with
+  | .acr122 | .udp => { wr := .ok, reads := [.good nom] }
+  | _ => { wr := .ok, reads := [.frame ack, .good nom] }
+
+def faulty (d : Drv) (nom : Bytes) (f : String) : Option Host :=
+  let n0 := nominal d nom
+  let pre : List Ev := match d with | .acr122 | .udp => [] | _ => [.frame ack]
+  match f.splitOn ":" with
+  | ["none"] => some n0
+  | ["w", "e", n] => n.toNat?.map fun n => { n0 with wr := .raise n }
+  | ["w", "short"] => some { n0 with wr := .short }
+  | ["a", "e", n] => n.toNat?.map fun n => { wr := .ok, reads := [.raise n, .good nom] }
+  | ["a", "f", h] => (parseHex h).map fun b => { wr := .ok, reads := [.frame b, .good nom] }
+  | ["a", "silent"] => some { wr := .ok, reads := [] }
+  | ["r", "e", n] => n.toNat?.map fun n => { wr := .ok, reads := pre ++ [.raise n] }
+  | ["r", "f", h] => (parseHex h).map fun b => { wr := .ok, reads := pre ++ [.frame b] }
+  | ["r", "p", h] => (parseHex h).map fun b => { wr := .ok, reads := pre ++ [.good b] }
+  | _ => none
+
+def parseNoms (s : String) : Option (List Bytes) :=
+  if s = "_" then some [] else (s.splitOn ",").mapM parseHex
+
+def showOut : Py (Option Bytes) → String
+  | .ok (some d) => "ok " ++ toHex d
+  | .ok none => "ok none"
+  | .error e => "exc " ++ e.name
+
+def handle (line : String) : String :=
+  match line.splitOn " " with
+  | ["x", v, drv, dir, kind, hasData, brty, step, fault, noms] =>
+    match parseCfg drv dir kind hasData, parseHex brty, step.toNat?, parseNoms noms with
+    | some c, some b, some st, some nl =>
+      let nomAt := fun i => nl.getD i []
+      match faulty c.drv (nomAt st) fault with
+      | none => "bad-op"
+      | some fh =>
+        let w := fun i => if i = st then fh else nominal c.drv (nomAt i)
+        let polls := (w 1) :: List.replicate 3 (nominal c.drv (nomAt 1))
+        let var := if v = "a" then Variant.asFound else Variant.repaired
+        showOut (exchange var c b w polls)
+    | _, _, _, _ => "bad-op"
+  | ["steps", drv, dir, kind, hasData] =>
+    match parseCfg drv dir kind hasData with
+    | some c => "ok " ++ ",".intercalate ((stepCodes c).map toString)
+    | none => "bad-op"
+  | ["front", o, t] =>
+    let ts := if t = "r" then TargetSel.remote else if t = "l" then TargetSel.local else TargetSel.none
+    showOut (frontendExchange (o = "1") ts (.ok (some [1])) (.ok (some [2])))
+  | _ => "bad-op"
+
+def main : IO Unit := runDriver handle
